@@ -2,11 +2,11 @@ module verifharness
 
 go 1.17
 
-require github.com/sergeymakinen/go-crypt v0.0.0
-
 require (
-	golang.org/x/crypto v0.31.0 // indirect
-	golang.org/x/sys v0.28.0 // indirect
+	github.com/sergeymakinen/go-crypt v0.0.0
+	golang.org/x/crypto v0.31.0
 )
+
+require golang.org/x/sys v0.28.0 // indirect
 
 replace github.com/sergeymakinen/go-crypt => /repo
